@@ -24,7 +24,8 @@ RULE = (
     "case = (expression tree, rendering style): all trees of depth 1 over the full 34-literal alphabet (every integer base, digit separators, every real-literal notation incl. negative exponents); all trees of depth 2 in "
     "which at most one operand of a binary operator is non-literal (both sides), unary and attribute operators over depth 1, over "
     "the tier's mixed-kind literal sub-alphabet (quick 5, thorough 13 literals) and over an all-rational (5) and a boolean/rational (5) alphabet; 17 binary, 3 unary operators, attributes {min,max,count,"
-    "nonexistent}; 4 renderings each. Trees whose evaluation needs a non-integer or >64 exponent are outside C04's quantifier and "
+    "nonexistent}; 4 renderings each; identifiers as operands: all depth-1 trees over 7 identifiers (constants of the section, a constant of another type, an unknown name), 3 literals and a set containing "
+    "an identifier, and depth-2 trees over 3 rational constants, each evaluated in a message and in BOTH sections of a service whose response re-declares the same names with other values. Trees whose evaluation needs a non-integer or >64 exponent are outside C04's quantifier and "
     "skipped (counted). Non-trivial iff the tree has an operator; value-producing and rejected trees are counted separately in the "
     "outcome histogram; distinct by canonical hash of (tree, style)"
 )
@@ -78,8 +79,49 @@ LITS_RATIONAL = ["0", "2", "3", "7", "1.5"]
 LITS_BOOLEAN = ["true", "false", "0", "2", "1.5"]
 
 
+# ---------------------------------------------------------------------------------------------------------------
+# identifiers as operands: constants of the same schema section (message; request and response of a service, where the response
+# re-declares the SAME names with other values and must not see the request's), constants of another type, unknown names
+ENV_REQ = {"A": "3", "B": "1.5", "C": "true", "N": "2", "Z": "0", "Dep.1.0.K": "7"}
+ENV_RESP = {"A": "5", "B": "2.5", "C": "false", "N": "3", "Z": "0", "Dep.1.0.K": "7"}
+DECL = {"A": "uint8 A = %s", "B": "float64 B = %s", "C": "bool C = %s", "N": "int8 N = %s", "Z": "uint8 Z = %s"}
+ID_LEAVES = [["id", "A"], ["id", "B"], ["id", "C"], ["id", "N"], ["id", "Z"], ["id", "Dep.1.0.K"], ["id", "Q"], ["lit", "2"], ["lit", "1.5"], ["lit", "true"], ["set", [["id", "A"], ["lit", "2"]]]]
+ID_RATIONAL = [["id", "A"], ["id", "B"], ["id", "N"]]
+
+
+def ident_trees(depth: int):
+    ls = ID_LEAVES if depth == 1 else ID_RATIONAL
+    d1 = []
+    for op in X.BINOPS:
+        for a in ls:
+            for b in ls:
+                d1.append(["bin", op, a, b])
+    for op in X.UNOPS:
+        for a in ls:
+            d1.append(["un", op, a])
+    for n in X.ATTRS:
+        for a in ls:
+            d1.append(["attr", a, n])
+    if depth == 1:
+        yield from d1
+        return
+    for t in d1:
+        for op in X.BINOPS:
+            for l in ls:
+                yield ["bin", op, t, l]
+                yield ["bin", op, l, t]
+        for op in X.UNOPS:
+            yield ["un", op, t]
+
+
+def prologue(env) -> str:
+    return "".join(DECL[k] % v + "\n" for k, v in env.items() if k in DECL)
+
+
 def plan(tier):
     shards = [{"family": "d1full", "part": p, "parts": 4} for p in range(4)]
+    shards += [{"family": "idents1", "part": p, "parts": 8} for p in range(8)]
+    shards += [{"family": "idents2", "part": p, "parts": 24} for p in range(24)]
     shards += [{"family": "d2rational", "part": p, "parts": 48} for p in range(48)]
     shards += [{"family": "d2boolean", "part": p, "parts": 16} for p in range(16)]
     parts = 96 if tier == "quick" else 384
@@ -95,6 +137,18 @@ def cases(shard, tier):
     fam = shard["family"]
     if fam == "d1full" or fam == "sinks":
         gen = depth1(LITS_FULL)
+    elif fam in ("idents1", "idents2"):
+        batch = []
+        for i, t in enumerate(ident_trees(1 if fam == "idents1" else 2)):
+            if i % shard["parts"] != shard["part"]:
+                continue
+            batch.append(t)
+            if len(batch) == BATCH:
+                yield {"kind": "idents", "batch": batch, "tier": tier}
+                batch = []
+        if batch:
+            yield {"kind": "idents", "batch": batch, "tier": tier}
+        return
     elif fam == "d2rational":
         gen = depth2(LITS_RATIONAL)
     elif fam == "d2boolean":
@@ -133,7 +187,7 @@ def read_text(text: str):
     try:
         with engine.deadline(20):
             res = pydsdl.read_namespace(_dir / "rns", [], print_output_handler=lambda path, line, txt: prints.append((line, txt)))
-        return prints, None, res
+        return prints, None, [t for t in res if t.short_name == "T"]  # (the identifier family keeps a Dep.1.0 next to T)
     except engine.CaseTimeout:
         return prints, {"cls": "TIMEOUT", "ide": False, "line": None, "text": "timeout", "culprit": "timeout"}, None
     except Exception as ex:  # noqa
@@ -260,6 +314,110 @@ def check_print(case, R: engine.Acc):
                 R.outcome("rejected")
 
 
+def read_text_with_dep(text: str):
+    assert _dir is not None
+    dep = _dir / "rns" / "Dep.1.0.dsdl"
+    if not dep.exists():
+        dep.write_text("uint8 K = 7\nuint8 A = 99\n@sealed\n")  # Dep also has a constant named A: it must never leak into T
+    return read_text(text)
+
+
+def check_idents(case, R: engine.Acc):
+    """Expressions over identifiers, evaluated in a message, and in BOTH sections of a service whose response re-declares the names."""
+    trees = case["batch"]
+    styles = case.get("styles", ["min", "tight"] if case.get("tier") == "quick" else STYLES)
+    layouts = case.get("layouts", ["message", "service"])
+    for t in trees:
+        X.ENV = ENV_REQ
+        X.selfcheck_tree(t)
+    for style in styles:
+        for layout in layouts:
+            sections = [ENV_REQ] if layout == "message" else [ENV_REQ, ENV_RESP]
+            refs = []
+            for env in sections:
+                X.ENV = env
+                refs.append([reference(t) for t in trees])
+            # one file: every tree that is defined in every section of the layout, printed in each section
+            defined = [i for i in range(len(trees)) if all(r[i][0] == "value" for r in refs)]
+
+            def run(group):
+                text, expect, line = "", {}, 0
+                for si, env in enumerate(sections):
+                    if si:
+                        text += "@sealed\n---\n"
+                        line += 2
+                    pro = prologue(env)
+                    text += pro
+                    line += pro.count("\n")
+                    for i in group:
+                        text += "@print %s\n" % X.render(trees[i], style)
+                        line += 1
+                        expect[line] = (i, si)
+                text += "@sealed\n"
+                prints, err, _res = read_text_with_dep(text)
+                if err is not None:
+                    if len(group) > 1:
+                        for i in group:
+                            run([i])
+                        return
+                    i = group[0]
+                    R.case([trees[i], style, layout], nontrivial=True, sample=False)
+                    R.outcome("value-expected-but-rejected")
+                    R.violation("defined-expression-rejected:%s:%s" % (opsig(trees[i]), err["cls"]), "a defined expression over constants evaluates to its mathematical value", {"kind": "idents", "batch": [trees[i]], "styles": [style], "layouts": [layout]}, observed={"error": err, "text": text}, expected=[r[i][1] for r in refs])
+                    return
+                got = dict(prints)
+                for ln, (i, si) in expect.items():
+                    R.case([trees[i], style, layout, si], nontrivial=True, sample=(layout == "service" and si == 1 and i % 29 == 0 and style == "min"))
+                    try:
+                        v = parse_printed(got[ln])
+                    except Exception:  # noqa
+                        v = {"unparsable": got.get(ln)}
+                    if v != refs[si][i][1]:
+                        R.outcome("value-differs")
+                        R.violation("identifier-value-differs:%s:%s" % (layout if si == 0 else "response", opsig(trees[i])), "an identifier denotes the constant of that name in the SAME schema section; the result equals the mathematical value", {"kind": "idents", "batch": [trees[i]], "styles": [style], "layouts": [layout]}, observed={"printed": got.get(ln), "section": si, "text": text}, expected=refs[si][i][1])
+                    else:
+                        R.outcome("value")
+                        R.outcome("identifier-value")
+
+            if defined:
+                run(defined)
+            # undefined in some section: one file per tree, the offending expression placed in the LAST section where it is undefined
+            for i in range(len(trees)):
+                bad = [si for si in range(len(sections)) if refs[si][i][0] == "undefined"]
+                if not bad or (style != styles[0]):
+                    continue
+                si = bad[-1]
+                text = ""
+                for sj, env in enumerate(sections):
+                    if sj:
+                        text += "@sealed\n---\n"
+                    text += prologue(env)
+                    if sj == si:
+                        text += "@print %s\n" % X.render(trees[i], style)
+                text += "@sealed\n"
+                R.case([trees[i], style, layout, "undefined"], nontrivial=True, sample=False)
+                prints, err, _res = read_text_with_dep(text)
+                one = {"kind": "idents", "batch": [trees[i]], "styles": [style], "layouts": [layout]}
+                if err is None:
+                    R.outcome("undefined-accepted")
+                    R.violation("undefined-expression-accepted:%s" % opsig(trees[i]), "unknown identifiers and undefined operand combinations are rejected", one, observed={"printed": prints, "text": text}, expected="InvalidDefinitionError (%s)" % refs[si][i][1])
+                elif not err["ide"]:
+                    R.outcome("undefined-foreign-exception")
+                    R.violation("rejection-not-InvalidDefinitionError:%s@%s" % (err["cls"], err.get("culprit")), "undefined expressions are rejected as invalid definitions", one, observed={"error": err, "text": text})
+                else:
+                    R.outcome("rejected")
+    # a name declared only in the request must be unknown in the response, also after it was used in the request
+    if case["batch"] and case["batch"][0] == ["bin", "||", ["id", "A"], ["id", "A"]]:
+        for use_in_req in (False, True):
+            text = "uint8 ONLYREQ = 4\n" + ("@print ONLYREQ + 1\n" if use_in_req else "") + "@sealed\n---\n@print ONLYREQ + 1\n@sealed\n"
+            R.case(["request-only-name", use_in_req], nontrivial=True, sample=False)
+            prints, err, _res = read_text_with_dep(text)
+            if err is None or not err["ide"]:
+                R.violation("request-constant-visible-in-response", "identifier lookup does not cross the request/response boundary", {"kind": "idents", "batch": case["batch"][:1], "styles": ["min"], "layouts": ["service"]}, observed={"printed": prints, "error": err, "text": text}, expected="InvalidDefinitionError (undefined identifier)")
+            else:
+                R.outcome("rejected")
+
+
 def check_sinks(case, R: engine.Acc):
     """Other sinks of constant expressions: constant initializer, array capacity, @extent operand, @assert."""
     for t in case["batch"]:
@@ -301,12 +459,14 @@ def check_sinks(case, R: engine.Acc):
 def check_case(case, R):
     if case["kind"] == "print":
         check_print(case, R)
+    elif case["kind"] == "idents":
+        check_idents(case, R)
     else:
         check_sinks(case, R)
 
 
 def finish(tier, M):
-    need = ["value", "rejected", "sink-constant", "sink-capacity", "sink-extent", "sink-assert"]
+    need = ["value", "rejected", "sink-constant", "sink-capacity", "sink-extent", "sink-assert", "identifier-value"]
     miss = [n for n in need if not M.hist.get(n)]
     if miss:
         raise engine.Vacuous("outcome classes not seen: %s" % miss)
